@@ -589,16 +589,31 @@ def _r5(ctx, m):
         for c in ast.walk(fn):
             if isinstance(c, ast.Call) and ast.unparse(c.func) == "NetworkInfo":
                 n += 1
+                if any(isinstance(a, ast.Starred) for a in c.args) or any(k.arg is None for k in c.keywords):
+                    ctx.unrec("R5", f"{cls}.{meth}:NetworkInfo(*..)", (file, c.lineno), "NetworkInfo is called with unpacked arguments: which value reaches which field is not decided")
+                    continue
                 bound = dict(zip(fields, c.args))
                 bound.update({k.arg: k.value for k in c.keywords})
+                # a local bound once to an expression stands for that expression (`species = network.species` .. NetworkInfo(.., species, ..))
+                once = {}
+                for st in ast.walk(fn):
+                    if isinstance(st, ast.Assign) and len(st.targets) == 1 and isinstance(st.targets[0], ast.Name):
+                        once.setdefault(st.targets[0].id, []).append(st.value)
                 for fld in fields:
                     a = bound.get(fld)
+                    if isinstance(a, ast.Name) and len(once.get(a.id, [])) == 1:
+                        a = once[a.id][0]
                     src = ast.unparse(a) if a is not None else "missing"
                     ok = a is not None and (src == f"network.{fld}" or src.startswith(f"network.{fld} or "))
                     if fld == "reactions" and src == "network.reaction_list":
                         ok = True      # the same reactions; whether the dummy fill-in is counted is C03.R4 (sizes)
-                    ctx.check(ok, "R5", f"{cls}.{meth}:NetworkInfo.{fld}", (file, c.lineno),
-                              f"field `{fld}` receives network.{fld}", expected=f"network.{fld}", found=src[:80])
+                    key = f"{cls}.{meth}:NetworkInfo.{fld}"
+                    other = [g for g in fields if g != fld and (src == f"network.{g}" or src.startswith(f"network.{g} or "))]
+                    if ok or a is None or other:
+                        # positive evidence of a mix-up: the field is missing, or it receives ANOTHER field's sequence
+                        ctx.check(ok, "R5", key, (file, c.lineno), f"field `{fld}` receives network.{fld}", expected=f"network.{fld}", found=src[:80])
+                    else:
+                        ctx.unrec("R5", key, (file, c.lineno), f"field `{fld}` receives `{src[:80]}`: not read as an attribute of the network")
     ctx.floor("R5", "NetworkInfo(...) call sites", n, 2)
 
 
